@@ -181,7 +181,10 @@ impl<'a, R: RoleType, T: IsPacketId> Gen<'a, R, T> {
                     self.op(format!("send 5 {}", hex(&w_auth(Some(0x18), Some(&vec![b'm'; n])))));
                 }
             }
-            if self.status() == "D" && force_ok {
+            if self.status() == "D" && (force_ok || self.legal) {
+                // the AUTH exchange ended the connection: a conforming server sends no CONNACK now
+                // (the library accepts a CONNACK while disconnected - a documented tolerance the
+                // suite relies on; contract-respecting walks do not build on it)
                 return;
             }
             if force_ok || self.rng.chance(9, 10) {
@@ -726,6 +729,28 @@ impl<'a, R: RoleType, T: IsPacketId> Gen<'a, R, T> {
         }
     }
 
+    /// several complete frames of the peer in ONE receive buffer: an unmatched acknowledgement or
+    /// a malformed frame first, then frames that are answered automatically
+    fn burst(&mut self) {
+        let v = self.ver();
+        let pw = self.pw();
+        let mut b: Vec<u8> = match self.rng.below(4) {
+            0 => w_ack(v, pw, 4, *self.rng.pick(&[1u64, 7, 9]), None, None),
+            1 => w_ack(v, pw, 7, *self.rng.pick(&[1u64, 7, 9]), None, None),
+            2 => w_publish(v, pw, 0, false, false, b"a", 0, &[], b"b1"),
+            _ => w_simple(0xd0),
+        };
+        for _ in 0..(1 + self.rng.below(2)) {
+            match self.rng.below(4) {
+                0 => b.extend(w_simple(0xc0)),
+                1 => b.extend(w_publish(v, pw, 2, true, false, b"a", *self.rng.pick(&[1u64, 2]), &[], b"b2")),
+                2 => b.extend(w_publish(v, pw, 1, false, false, b"a", 3, &[], b"b3")),
+                _ => b.extend(w_ack(v, pw, 6, *self.rng.pick(&[1u64, 2]), None, None)),
+            }
+        }
+        self.op(format!("recv {}", hex(&b)));
+    }
+
     fn garbage(&mut self) {
         let v = self.ver();
         let pw = self.pw();
@@ -820,7 +845,7 @@ impl<'a, R: RoleType, T: IsPacketId> Gen<'a, R, T> {
         pick!(w(8, 14, f == 3), { self.ping_timer() });
         pick!(w(9, 8, f == 4), { self.misc() });
         pick!(w(5, 0, true), { self.ending() });
-        pick!(w(3, 20, f == 5), { self.garbage() });
+        pick!(w(3, 20, f == 5), { if self.rng.chance(1, 4) { self.burst() } else { self.garbage() } });
         self.handshake();
     }
 }
@@ -1179,6 +1204,38 @@ fn walk<R: RoleType, T: IsPacketId>(role: &'static str, ver: u8, steps: usize, r
         g.force_persist = false;
         g.force_clean = None;
     }
+    if g.legal && g.s.version() != 0 && g.rng.chance(1, 8) {
+        // directed: the transport is lost between PUBREC and PUBREL of an outbound QoS 2 exchange;
+        // the application hands over the PUBREL while disconnected (persistent session: it is
+        // stored), the session is resumed, the PUBREL retransmitted and acknowledged
+        let v = g.ver();
+        let pw = g.pw();
+        g.op("set apr 0".into());
+        g.force_ok = true;
+        g.force_persist = true;
+        g.force_clean = Some(g.rng.chance(1, 2));
+        g.handshake();
+        if g.status() == "C" {
+            let id = g.fresh_id();
+            g.op(format!("send {} {}", v, hex(&w_publish(v, pw, 2, false, false, b"a", id, &[], b"x2"))));
+            g.after_send(id);
+            g.op(format!("recv {}", hex(&w_ack(v, pw, 5, id, None, None))));
+            if g.pubrec_delivered(id) {
+                g.op("closed".into());
+                g.my_ids.retain(|x| *x != id);
+                g.op(format!("send {} {}", v, hex(&w_ack(v, pw, 6, id, None, None))));
+                g.force_clean = Some(false);
+                g.handshake();
+                if g.status() == "C" {
+                    g.op(format!("recv {}", hex(&w_ack(v, pw, 7, id, None, None))));
+                }
+            }
+        }
+        g.inflight.clear();
+        g.force_ok = false;
+        g.force_persist = false;
+        g.force_clean = None;
+    }
     if !g.started && g.legal && g.s.version() != 0 && g.rng.chance(1, 8) {
         // directed: a malformed export (the same identifier in entries of different kinds, QoS 0
         // entries) is restored, the session resumed, and the peer acknowledges every kind
@@ -1483,10 +1540,22 @@ fn restore_trial<R: RoleType, T: IsPacketId>(role: &'static str, ver: u8, steps:
     g.rel_wait.clear();
     g.peer_pubs.clear();
     g.subs.clear();
-    // resume: same handshake on both (not clean, session present, accepted)
+    // resume: same handshake on both (not clean, session present, accepted); sometimes a first
+    // attempt is refused by the server (the session must survive that)
     g.force_clean = Some(false);
     g.force_ok = true;
     g.force_persist = true;
+    if g.rng.chance(1, 3) {
+        let v = g.ver();
+        g.force_rc = Some(if v == 5 { *g.rng.pick(&[0x80u8, 0x88, 0x89]) } else { *g.rng.pick(&[2u8, 3, 5]) });
+        g.force_sp = Some(false);
+        g.handshake();
+        g.force_rc = None;
+        g.force_sp = None;
+        if g.status() != "D" {
+            g.op("closed".into());
+        }
+    }
     g.handshake();
     g.force_clean = None;
     g.force_ok = false;
